@@ -293,6 +293,17 @@ def main():
     mt = re.search(r"Ok\(name\)\s*=>\s*Some\(([^\n]*)\),", pdsrc)
     if mt:
         name_trim = "some true" if (mc and re.sub(r"\s+", "", mt.group(1)) == "name.trim_end().to_string()") else "some false"
+    # suspend_thread: after the attach, an unbounded `loop` that ends only on SIGSTOP (break), an error return, or goes
+    # round again (EINTR / a re-injected signal)
+    attach_loop = "none"
+    ms_ = re.search(r"pub fn suspend_thread\(child: Pid\).*?\n    \}\n", pdsrc, re.S)
+    if ms_:
+        body = re.sub(r"//[^\n]*", "", ms_.group(0))
+        after = body.split("ptrace::attach(pid)", 1)[1] if "ptrace::attach(pid)" in body else ""
+        m_l = re.match(r"[^;]*;\s*(\w+)", after)
+        if m_l:
+            ok = m_l.group(1) == "loop" and re.search(r"if\s+signal\s*==\s*libc::SIGSTOP\s*\{\s*break;\s*\}", body) is not None and len(re.findall(r"\bbreak\b", body.split("// We thus check")[0] if "// We thus check" in body else body)) >= 1 and not re.search(r"for\s+\w+\s+in\s+0\.\.", body)
+            attach_loop = "some true" if ok else "some false"
     out = []
     out.append("/- GENERATED by gen/extract.py from /repo's source — do not edit. -/")
     out.append("namespace Mdw.Src\n")
@@ -327,6 +338,7 @@ def main():
     out.append(f"\n/-- with a crash context the exception record's code, flags and address are the caller's signal number, code and address, unfiltered (none = not recognisable) -/\ndef exceptionFieldsVerbatim : Option Bool := {exc_verbatim}")
     out.append(f"\n/-- the fallback crash context (blamed thread not listed) is referred to by the location of its own allocation (none = not recognisable) -/\ndef exceptionContextLocOfAlloc : Option Bool := {exc_ctx_loc}")
     out.append(f"\n/-- a thread's name is the whole content of its comm file with trailing white space trimmed, nothing else (none = not recognisable) -/\ndef threadNameTrimEndOnly : Option Bool := {name_trim}")
+    out.append(f"\n/-- the wait-and-reinject loop of `suspend_thread` is an unbounded `loop` left through SIGSTOP or an error only (none = not recognisable) -/\ndef attachLoopUnbounded : Option Bool := {attach_loop}")
     out.append("\nend Mdw.Src\n")
     text = "\n".join(out)
     os.makedirs(os.path.dirname(OUT), exist_ok=True)
